@@ -11,6 +11,8 @@
 #include "DataSpace.hpp"
 #include "H5Exception.hpp"
 
+#include <nix/Exception.hpp>
+
 
 namespace nix {
 namespace hdf5 {
@@ -68,6 +70,15 @@ NDSize DataSpace::extent() const {
 
 
 void DataSpace::hyperslab(const NDSize &count, const NDSize &start, H5S_seloper_t op) {
+    // H5Sselect_hyperslab reads one entry per dimension of the data space from both arrays
+    int ndims = H5Sget_simple_extent_ndims(hid);
+    if (ndims < 0) {
+        throw H5Exception("DataSpace::hyperslab(): could not obtain number of dimensions");
+    }
+    if (count.size() < static_cast<size_t>(ndims) || start.size() < static_cast<size_t>(ndims)) {
+        throw InvalidRank("DataSpace::hyperslab(): count and offset need one entry per dimension of the data");
+    }
+
     HErr status = H5Sselect_hyperslab(hid, op, start.data(), nullptr, count.data(), nullptr);
     status.check("DataSpace::hyperslab(): H5Sselect_hyperslab() failed!");
 }
